@@ -20,6 +20,12 @@ REPO = sut.REPO
 _state = {}
 
 
+KEYWORDISH = ['letter', 'lethal', 'let_count', 'classy', 'classes', 'ignored_x', 'ignoreme', 'inner', 'inx', 'passes', 'password',
+              'requiresX', 'required', 'whereabouts', 'wherever', 'betweenness', 'grammarian', 'extendsX', 'overrideX', 'overrides_',
+              'leftover', 'rightful', 'infixx', 'prefixx', 'postfixes', 'mixfixx', 'Truex', 'Nonesuch', 'Falsetto', 'iffy', 'bx', 'Bx',
+              'ix', 'rx', 'between_', 'in_', 'letX', 'class_', 'pass_', 'where_', 'ignore_', 'grammar_', 'extends_', 'left_', 'right_']
+
+
 def grammar_txt():
     with open(os.path.join(REPO, 'grammar.txt')) as f:
         return f.read()
@@ -232,6 +238,17 @@ class C12(Check):
                 g = draw(gens_rich.rich_grammar(nrules=2, depth=2, use_lib=False))
                 g = g.copy(header=draw(st.sampled_from(['mod', 'pkg.mod', 'a.b.c'])),
                            extends=draw(st.sampled_from([None, 'base', 'pkg.base'])))
+            if draw(st.booleans()):
+                # names that begin with a word of the description language (keyword boundaries)
+                from vlib import renaming
+                from checks.c20 import grammar_names
+                pool = draw(st.permutations(KEYWORDISH))
+                olds = sorted(n for n in grammar_names(g) if n.lower() != 'start')
+                mapping = dict(zip(olds, pool))
+                try:
+                    g = renaming.rename_grammar(g, mapping)
+                except Exception:
+                    pass
             return peg.render2(g, bits) if draw(st.booleans()) else peg.render(g)
         edit = st.tuples(st.integers(0, 6), st.floats(0, 1, allow_nan=False), st.integers(0, 100))
 
